@@ -15,7 +15,7 @@ var opKindsCursorTree = []string{
 
 var moveKinds = []string{
 	"left", "left", "right", "right", "up", "up", "min", "max", "next", "next", "next", "prev", "prev", "prev",
-	"goto", "goto", "clone", "switch", "switch", "inorder",
+	"goto", "goto", "clone", "switch", "switch", "inorder", "hasnext", "hasnext", "hasprev", "hasprev",
 }
 
 func genCursorCase(t *rapid.T) CursorCase {
